@@ -508,6 +508,38 @@ def s2_hemisphere_check(ctx, c, outs):
     return None
 
 
+def ea_range_check(ctx, c, outs):
+    """the equal-area coordinate grid restricted to an azimuth / polar range: nodes stay inside the requested range, both ends of
+    the polar range and the start of the azimuth range are nodes, consecutive nodes are at most one resolution apart in azimuth
+    and in equal-area spacing of cos(polar), so the range is covered"""
+    from orix.sampling.S2_sampling import _sample_S2_equal_area_coordinates
+    az_r, po_r = tuple(c["azimuth_range"]), tuple(c["polar_range"])
+    with warnings.catch_warnings():
+        warnings.simplefilter("ignore")
+        az, po = _sample_S2_equal_area_coordinates(c["resolution"], azimuth_range=az_r, polar_range=po_r,
+                                                   azimuth_endpoint=c["endpoint"])
+    az, po = np.asarray(az, float), np.asarray(po, float)
+    a0, a1 = max(az_r[0], 0.0), min(az_r[1], 2 * np.pi)
+    p0, p1 = max(po_r[0], 0.0), min(po_r[1], np.pi)
+    if len(az) == 0 or len(po) < 2:
+        return f"equal-area coordinates for ranges {az_r}, {po_r} at {c['resolution']} deg: {len(az)} azimuth and {len(po)} polar nodes"
+    if az.min() < a0 - 1e-12 or az.max() > a1 + 1e-12 or po.min() < p0 - 1e-7 or po.max() > p1 + 1e-7:
+        return (f"equal-area nodes leave the requested range: azimuth [{az.min()}, {az.max()}] for {(a0, a1)}, polar "
+                f"[{po.min()}, {po.max()}] for {(p0, p1)}")
+    if abs(az[0] - a0) > 1e-12 or abs(po[0] - p0) > 1e-7 or abs(po[-1] - p1) > 1e-7:
+        return f"the ends of the requested range are not nodes: azimuth starts at {az[0]} ({a0}), polar spans [{po[0]}, {po[-1]}] ({(p0, p1)})"
+    if c["endpoint"] and abs(az[-1] - a1) > 1e-12:
+        return f"azimuth_endpoint=True but the last azimuth node is {az[-1]}, not {a1}"
+    step = np.deg2rad(c["resolution"])
+    gaps = np.diff(np.concatenate([az, [a1]]))
+    if gaps.max() > step * (1 + 1e-9):
+        return f"azimuth nodes are up to {np.rad2deg(gaps.max()):.4f} deg apart at resolution {c['resolution']} deg (range {az_r})"
+    dz = np.abs(np.diff(np.cos(po)))
+    if dz.max() > 1.0 / math.ceil(90 / c["resolution"]) * (1 + 1e-9):
+        return f"cos(polar) steps up to {dz.max()} exceed 1/steps = {1.0 / math.ceil(90 / c['resolution'])}"
+    return None
+
+
 def so3_space_group_check(ctx, c, outs):
     """the space_group= route of get_sample_fundamental: same sample as for the proper point group of that space group,
     inside the fundamental zone of that proper group"""
@@ -666,6 +698,7 @@ SITES = {
     "hexagonal_mesh": sites.Site("hexagonal_mesh", "corr", hex_check, hex_lines),
     "s2_any_resolution": sites.Site("s2_any_resolution", "prop", s2_any_check),
     "s2_hemisphere": sites.Site("s2_hemisphere", "prop", s2_hemisphere_check),
+    "ea_range": sites.Site("ea_range", "prop", ea_range_check),
     "so3_num_steps": sites.Site("so3_num_steps", "corr", so3steps_check, so3steps_lines),
     "so3_grid": sites.Site("so3_grid", "corr", so3grid_check, so3grid_lines),
 }
@@ -794,6 +827,15 @@ def generate_s2_model(ctx):
         for m in ("quaternion", "haar_euler"):
             ctx.count("so3_grid/rejected", ("so3g", m, r), nontrivial=False)
             yield "so3_grid", {"method": m, "resolution": r, "full": False, "n_targets": 0, "seed": 0}
+    # equal-area grid over an azimuth / polar range
+    for k in range(12 if quick else 120):
+        a0 = float(rng.uniform(0, 5.5))
+        p0 = float(rng.uniform(0, 2.6))
+        c = {"resolution": float(rng.choice([2.0, 3.0, 7.5, 10.0, 11.3])), "endpoint": bool(k % 2),
+             "azimuth_range": [a0 if k % 4 else 0.0, float(min(2 * np.pi, a0 + rng.uniform(0.2, 3.0))) if k % 5 else 2 * np.pi + 0.5],
+             "polar_range": [p0 if k % 3 else 0.0, float(min(np.pi, p0 + rng.uniform(0.2, 1.5))) if k % 7 else np.pi + 0.2]}
+        ctx.count("ea_range", ("ear", k, c["resolution"]))
+        yield "ea_range", c
     # hemisphere meshes: every vector in the requested hemisphere, for every offset
     for r in [x for x in rs if 0.9 <= x <= 90.0]:
         for m, offs in (("uv", offsets), ("equal_area", (0.0,))):
